@@ -39,7 +39,11 @@ META = {
         "code on every Flip object of the real runs (residue.atoms after __init__ and after complete, bit for bit, with the code's own cos/sin/norm "
         "values as oracle inputs; the rotation angle must be (180.0 + d) - d). Binary64: cos(pi) = -1.0 exactly, sin(pi) = 1.22e-16, so a double flip "
         "returns within ~4e-15 A (measured each run: coverage.flip_round_trip_max_abs_deviation_A), not exactly. 'No Flip object with --noopt / --clean / "
-        "--assign-only' is observed by the monitor, not proved. Inter-residue S-S bonds are outside the lemma."
+        "--assign-only' is observed by the monitor, not proved. The no-move modes: C04_noop_stage_table (PARTIAL: on the stage table translated from "
+        "main.py, both debumping passes depend on args.debump and otherwise only on assign_only/clean, the full-optimisation set-up on args.opt, and "
+        "debump/opt are written only by transform_arguments; polarity of the tests not expressed) + run-time tie (no debumping pass with args.debump "
+        "false) + a search over random points of the option lattice (mode x pKa method x pH x ff x ffout x neutraln/c x keep-chain x include-header x "
+        "drop-water x whitespace) on inputs with rebuilt side-chain atoms and clash partners; that no input heavy atom moves there is observed, not proved. Inter-residue S-S bonds are outside the lemma."
     ),
     "level_note": (
         "Trusted: Coq kernel+vm_compute; generators gen/topology.py, gen/moves_table.py; hand models Model/Moves.v and Model/Debump.v (tied by "
@@ -73,6 +77,7 @@ THEOREMS = [
     "C04_flip_involution",
     "C04_flip_table",
     "C04_flip_nonvacuous",
+    "C04_noop_stage_table",
 ]
 
 # real numbers are used only by the net-rotation theorems (angles modulo 360 over R)
@@ -217,8 +222,6 @@ QUICK = [
     # (the variants are chosen in run(): clash_inputs)
 ]
 THOROUGH = QUICK + [
-    *[("1AFS.pdb", ["--ff=AMBER"], False, f"clash{k}") for k in range(0, 20, 3)],
-    *[("1AFS.pdb", ["--ff=AMBER"], False, f"preflipped+clash{k}") for k in range(1, 20, 3)],
     ("1AFS.pdb", ["--ff=AMBER"], False, "preflipped"),
     ("1A1P.pdb", ["--ff=AMBER"], False, "preflipped"),
     ("cterm_hid.pdb", ["--ff=AMBER"], False, "preflipped"),
@@ -315,6 +318,12 @@ def clash_plan(text, k):
     return out
 
 
+THOROUGH_TIER_ONLY = [
+    *[("1AFS.pdb", ["--ff=AMBER"], False, f"clash{k}") for k in range(0, 20, 3)],
+    *[("1AFS.pdb", ["--ff=AMBER"], False, f"preflipped+clash{k}") for k in range(1, 20, 3)],
+]
+
+
 def clash_inputs(thorough):
     """Greedy, deterministic choice of clash variants: 1K1I (29 flip residues, 1.2 s a run) and 1AJJ/1A1P (HIS),
     plain and preflipped, until every (residue type, flip atom, distance) combination has a water in the plain
@@ -343,6 +352,76 @@ def clash_inputs(thorough):
     return out
 
 
+# a side-chain heavy atom per residue type that repair_heavy can rebuild from the rest of the residue
+REBUILD_VICTIMS = {
+    "PHE": ["CZ", "CE1"], "TYR": ["OH", "CZ"], "LEU": ["CD1", "CD2"], "ILE": ["CD1", "CG2"], "LYS": ["NZ", "CE"],
+    "ARG": ["NH1", "CZ"], "GLU": ["OE1", "CD"], "GLN": ["NE2", "CD"], "ASP": ["OD1", "OD2"], "ASN": ["ND2", "OD1"],
+    "SER": ["OG"], "THR": ["OG1", "CG2"], "VAL": ["CG1", "CG2"], "MET": ["CE", "SD"], "HIS": ["NE2", "CE1"], "TRP": ["CH2", "CZ3"],
+}
+REBUILD_OFFSETS = [0.0, 0.9, 1.3, 1.7]
+
+
+def rebuild_clash(text, k):
+    """Something for debumping to do: every third residue (phase k) loses one side-chain heavy atom, which
+    repair_heavy rebuilds (about where it was), and a water oxygen is put 0 / 0.9 / 1.3 / 1.7 A from that spot
+    (on the line CA -> atom), i.e. inside the 2.0 A heavy-heavy bump cutoff of the rebuilt atom."""
+    lines = text.splitlines()
+    groups = []
+    for ln in lines:
+        if ln.startswith("ATOM  ") and ln[17:20] in REBUILD_VICTIMS:
+            key = ln[17:27]
+            if not groups or groups[-1][0] != key:
+                groups.append((key, {}))
+            groups[-1][1].setdefault(ln[12:16].strip(), (float(ln[30:38]), float(ln[38:46]), float(ln[46:54])))
+    drop = set()
+    waters = []
+    for j, (key, atoms) in enumerate(groups):
+        if (j + k) % 3:
+            continue
+        opts = REBUILD_VICTIMS[key[:3]]
+        victim = opts[(j // 3 + k) % len(opts)]
+        if victim not in atoms or "CA" not in atoms:
+            continue
+        pa, pc = atoms[victim], atoms["CA"]
+        n = math.dist(pa, pc)
+        d = REBUILD_OFFSETS[(j // 3 + k // 2) % len(REBUILD_OFFSETS)]
+        w = [pa[i] + d * (pa[i] - pc[i]) / n for i in range(3)]
+        drop.add((key, victim))
+        waters.append(f"HETATM{9500 + len(waters):5d}  O   HOH V{800 + len(waters):4d}    {w[0]:8.3f}{w[1]:8.3f}{w[2]:8.3f}  1.00  0.00           O")
+    body = [ln for ln in lines if not ln.startswith(("END", "CONECT", "MASTER")) and not (ln.startswith("ATOM  ") and (ln[17:27], ln[12:16].strip()) in drop)]
+    return "\n".join(body + waters + ["END"]) + "\n"
+
+
+NOMOVE_MODES = [["--nodebump", "--noopt"], ["--nodebump", "--noopt"], ["--nodebump", "--noopt"], ["--clean"], ["--assign-only"]]
+
+
+def option_lattice(rng, n):
+    """Random points of the option lattice that reaches main.non_trivial, all in a mode in which no input heavy atom
+    may move (--nodebump --noopt / --clean / --assign-only), on inputs that give debumping something to do
+    (rebuild<k>: missing side-chain atoms with a water where they are rebuilt).  (pdb, args, transform, propka)."""
+    out = []
+    for i in range(n):
+        mode = list(NOMOVE_MODES[i % len(NOMOVE_MODES)])
+        ff = rng.choice(["AMBER", "PARSE", "CHARMM", "SWANSON", "TYL06", "PEOEPB"])
+        extra = [f"--ff={ff}", *mode]
+        propka = None
+        if i % 5 != 4 and (i % 2 == 0 or rng.random() < 0.5):
+            extra += ["--titration-state-method=propka", f"--with-ph={rng.choice(['0.5', '3.0', '7.0', '7.4', '11.0', '13.5'])}"]
+            propka = "real" if i % 6 == 0 else "stub"
+        elif rng.random() < 0.4:
+            extra += [f"--with-ph={rng.choice(['2.0', '9.5'])}"]
+        if rng.random() < 0.4:
+            extra.append(f"--ffout={rng.choice(['AMBER', 'CHARMM', 'PARSE', 'TYL06'])}")
+        if ff == "PARSE" and rng.random() < 0.6:
+            extra += rng.choice([["--neutraln"], ["--neutralc"], ["--neutraln", "--neutralc"]])
+        for o, pr in (("--keep-chain", 0.4), ("--include-header", 0.3), ("--drop-water", 0.25), ("--whitespace", 0.2)):
+            if rng.random() < pr:
+                extra.append(o)
+        pdb = rng.choice(["1AJJ.pdb", "1AJJ.pdb", "1K1I.pdb", "1A1P.pdb"])
+        out.append((pdb, extra, f"rebuild{rng.randrange(12)}", propka))
+    return out
+
+
 def transform_pdb(text, transform):
     """The same structure written differently: 'alphabetical' = the ATOM records of every residue sorted
     by atom name (CD before CG, CE1 before ND1, ring atoms before CG); 'del-interior' = an interior
@@ -354,6 +433,8 @@ def transform_pdb(text, transform):
         return text
     if transform.startswith("clash"):
         return add_clash_waters(text, int(transform[5:] or 0))
+    if transform.startswith("rebuild"):
+        return rebuild_clash(text, int(transform[7:] or 0))
     lines = text.splitlines()
     out = []
     i = 0
@@ -393,7 +474,7 @@ def transform_pdb(text, transform):
     return "\n".join(out) + "\n"
 
 
-def real_run(ctx, pdb, extra, transform=None):
+def real_run(ctx, pdb, extra, transform=None, propka=None):
     from pdb2pqr import debump as pdebump, main as pmain, structures as pstruct
 
     d = ctx.scratch_dir()
@@ -468,6 +549,17 @@ def real_run(ctx, pdb, extra, transform=None):
     pmain.setup_molecule = w_setup
     flips = []
     undo_flip = install_flip_monitor(flips, orig_key, input_ids)
+    orig_propka = pmain.run_propka
+    if propka == "stub":
+        pmain.run_propka = lambda a, b: ([], "stub pKa table (harness)")
+    orig_dbm = pdebump.Debump.debump_biomolecule
+    passes = []
+
+    def w_dbm(self):
+        passes.append({"debump": bool(getattr(args, "debump", None)), "opt": bool(getattr(args, "opt", None))})
+        return orig_dbm(self)
+
+    pdebump.Debump.debump_biomolecule = w_dbm
     err = None
     bio = None
     try:
@@ -476,6 +568,8 @@ def real_run(ctx, pdb, extra, transform=None):
         err = f"{type(e).__name__}: {e}"
     finally:
         undo_flip()
+        pmain.run_propka = orig_propka
+        pdebump.Debump.debump_biomolecule = orig_dbm
         pdebump.Debump.set_dihedral_angle = orig_sda
         pdebump.Debump.debump_residue = orig_debump
         pmain.setup_molecule = orig_setup
@@ -485,10 +579,14 @@ def real_run(ctx, pdb, extra, transform=None):
             del pstruct.Atom.__setattr__
     for f in d.glob("g.*"):
         f.unlink()
-    return {"calls": calls, "writes": writes, "initial": initial, "bio": bio, "err": err, "orig_key": orig_key, "debump_ties": real_ties, "flips": flips}
+    return {"calls": calls, "writes": writes, "initial": initial, "bio": bio, "err": err, "orig_key": orig_key, "debump_ties": real_ties, "flips": flips, "debump_passes": passes, "opt_debump": (bool(getattr(args, "debump", None)), bool(getattr(args, "opt", None)))}
 
 
 BACKBONE_CAP = {"N", "CA", "C", "O", "OXT"}
+
+
+def mode_of(extra):
+    return " ".join(x for x in extra if x in ("--nodebump", "--noopt", "--clean", "--assign-only") or x.startswith("--titration-state-method"))
 
 
 def geometry_oracle(ctx, pdb, extra, noop, run, definition):
@@ -516,7 +614,7 @@ def geometry_oracle(ctx, pdb, extra, noop, run, definition):
         moved = p0 != p1
         ctx.evaluated(f"{label}:{k}", True)
         if moved and noop:
-            ctx.fail({"site": "pipeline", "condition": "moved-in-noop-mode", "mode": " ".join(x for x in extra if not x.startswith("--ff"))}, f"{label}: input heavy atom {k} moved {math.dist(p0, p1):.4f} A although no atom may move in this mode", {"pdb": pdb, "args": extra, "atom": list(k)})
+            ctx.fail({"site": "pipeline", "condition": "moved-in-noop-mode", "mode": mode_of(extra)}, f"{label}: input heavy atom {k} moved {math.dist(p0, p1):.4f} A although no atom may move in this mode", {"pdb": pdb, "args": extra, "atom": list(k), "propka": run.get("propka")})
         elif moved and k[3] in BACKBONE_CAP:
             ctx.fail({"site": "pipeline", "condition": "backbone-or-cap-moved", "atom": k[3]}, f"{label}: backbone/cap atom {k} moved {math.dist(p0, p1):.4f} A", {"pdb": pdb, "args": extra, "atom": list(k)})
     # rigid geometry per residue with any moved atom
@@ -1421,7 +1519,7 @@ def run(ctx):
         "pair with a non-empty moved set, a distinct observed call, a distinct input heavy atom of a run, or a walk with >= 2 attempts, >= 1 accepted "
         "and moved atoms"
     )
-    gen_ok = c01.regenerate(ctx, "ff_tables,topology,moves_table,flip_table")
+    gen_ok = c01.regenerate(ctx, "ff_tables,topology,moves_table,flip_table,stages")
     ok = core.proof_stage(ctx, "C04", THEOREMS, ALLOWED_AXIOMS) if gen_ok else False
     if not gen_ok:
         ctx.obligations.extend(THEOREMS)
@@ -1462,13 +1560,27 @@ def run(ctx):
             if True:
                 corr_broken = storage_order_correspondence(ctx, definition, mlabels, res[1:5]) or corr_broken
     # --- (B)+(C)
-    inputs = list(THOROUGH if (ctx.thorough or not ok or corr_broken) else QUICK) + clash_inputs(ctx.thorough)
+    inputs = list(THOROUGH if (ctx.thorough or not ok or corr_broken) else QUICK) + (THOROUGH_TIER_ONLY if ctx.thorough else []) + clash_inputs(ctx.thorough)
     seen_calls = {}
     real_ties = []
     flip_recs = []
+    lattice = option_lattice(ctx.rng, 60 if ctx.thorough else 14)
+    inputs += [(pdb, extra, True, tr, pk) for pdb, extra, tr, pk in lattice]
+    inputs += [("1AJJ.pdb", ["--ff=AMBER"], False, "rebuild0"), ("1AJJ.pdb", ["--ff=PARSE", "--noopt"], False, "rebuild1")]
     for pdb, extra, noop, *tr in inputs:
         transform = tr[0] if tr else None
-        run_ = real_run(ctx, pdb, extra, transform)
+        propka = tr[1] if len(tr) > 1 else None
+        run_ = real_run(ctx, pdb, extra, transform, propka)
+        if noop and len(tr) > 1:
+            ctx.count(f"option-lattice:{mode_of(extra)}{':propka-' + propka if propka else ''}")
+            ctx.count("option-lattice:runs that reached the end" if not run_["err"] else "option-lattice:runs that raised")
+        # stage table tie: a debumping pass runs only with args.debump (Generated/Stages.v: the guards of both
+        # debump_biomolecule stages depend on debump, assign_only, clean only)
+        ctx.cov["correspondence_cases"] += 1
+        if run_["debump_passes"] and not all(p["debump"] for p in run_["debump_passes"]):
+            ctx.cov["correspondence_disagreements"] += 1
+            if not any(b["what"].startswith("stage table: Debump.debump_biomolecule") for b in ctx.broken):
+                ctx.broke("correspondence-broken", "stage table: Debump.debump_biomolecule ran although args.debump is false (C04_noop_stage_table: its guards are args.debump)", f"{pdb}[{transform}] {' '.join(extra)}: {len(run_['debump_passes'])} debumping pass(es) with args.debump false", {"pdb": f"{pdb}[{transform}]" if transform else pdb, "args": extra, "propka": propka})
         if transform and "clash" in transform:
             base = (core.REPO / "tests" / "data" / pdb).read_text()
             for rn, an, d in clash_plan(base, int(transform.split("clash")[1])):
@@ -1488,7 +1600,8 @@ def run(ctx):
                 if not any(b["what"].endswith(site) for b in ctx.broken):
                     ctx.broke("correspondence-broken", f"Model.Moves coordinate writers vs the code: input heavy atoms written from {site}", f"{pdb} {' '.join(extra)}: {n} coordinate writes to input heavy atoms from {site} (the model has only Debump.set_dihedral_angle)", {"pdb": pdb, "args": extra, "site": site})
             elif noop:
-                ctx.fail({"site": site, "condition": "moved-in-noop-mode", "mode": " ".join(x for x in extra if not x.startswith("--ff"))}, f"{pdb} {' '.join(extra)}: side-chain rotation executed in a no-op mode", {"pdb": pdb, "args": extra})
+                ctx.fail({"site": site, "condition": "moved-in-noop-mode", "mode": mode_of(extra)}, f"{pdb} {' '.join(extra)}: side-chain rotation executed in a no-op mode", {"pdb": pdb, "args": extra})
+        run_["propka"] = propka
         geometry_oracle(ctx, pdb, extra, noop, run_, definition)
         for t in run_["debump_ties"]:
             t["case"] = {"pdb": pdb, "args": extra, "residue": t["residue"]}
@@ -1624,7 +1737,7 @@ def replay(ctx, data):
     import re as _re
 
     m = _re.match(r"(.*)\[(.*)\]$", case["pdb"])
-    run_ = real_run(ctx, m.group(1), case["args"], m.group(2)) if m else real_run(ctx, case["pdb"], case["args"])
+    run_ = real_run(ctx, m.group(1), case["args"], m.group(2), case.get("propka")) if m else real_run(ctx, case["pdb"], case["args"], None, case.get("propka"))
     before = len(ctx.failures)
     geometry_oracle(ctx, case["pdb"], case["args"], any(m in case["args"] for m in ("--clean", "--assign-only")) or ("--nodebump" in case["args"] and "--noopt" in case["args"]), run_, definition)
     bad = len(ctx.failures) - before + sum(1 for s in run_["writes"] if s != "debump.Debump.set_dihedral_angle")
